@@ -52,6 +52,11 @@ def hostile():
         for L in (199, 201, 204, 210):
             res.append(("long_indented_error_line_%d_%d" % (k, L), b"JSIGHT 0.3\nINFO\n" + b" " * k + b"Bogus" + b"x" * (L - k - 5) + b"\n"))
             res.append(("long_indented_include_line_%d_%d" % (k, L), b"JSIGHT 0.3\n" + b"\t" * k + b"INCLUDE bad.jst" + b" " * max(0, L - k - 15) + b"\n"))
+    # an empty quoted parameter on every directive that takes parameters
+    for kw in ("JSIGHT", "Title", "Version", "SERVER", "BaseUrl", "URL", "GET", "Body", "Request", "200", "Query", "TYPE", "ENUM", "MACRO",
+               "PASTE", "INCLUDE", "Protocol", "Method", "TAG", "Tags", "Path", "Headers"):
+        res.append(("empty_quoted_%s" % kw, b'JSIGHT 0.3\nINFO\n  Title "T"\n' + kw.encode() + b' ""\n'))
+        res.append(("empty_quoted_in_url_%s" % kw, b'JSIGHT 0.3\nURL /a\n  GET\n    ' + kw.encode() + b' ""\n'))
     res.append(("paren_first", b"("))
     res.append(("empty_include_in_parens", b"JSIGHT 0.3\nURL /a\n(\nINCLUDE empty.jst\n)\n"))
     res.append(("empty_include_unclosed", b"JSIGHT 0.3\nURL /a\n(\nINCLUDE empty.jst\n"))
